@@ -1278,11 +1278,12 @@ Example y_end_to_end_applies :
   let ro := y_ro [] LogTimeOrder in
   let sel := tw_sel (sm_channels (y_sm ro)) ro in
   exists ms st out, y_read ro = Ok (ms, EEOF, st) /\
-    a_read sel LogTimeOrder 12 12 (map snd y_pairs) = Some (out, st) /\ map log_of ms = map am_ts out
+    a_read sel (ro_order ro) 12 12 (map snd y_pairs) = Some (out, st) /\ map log_of ms = map am_ts out
     /\ Permutation out (filter sel (all_msgs (map snd y_pairs))).
 Proof.
   intros ro sel. destruct y_end_to_end_hyps as (H1 & H2 & H3 & ms & st & H4).
+  fold ro in H4. exists ms, st. unfold y_read in *.
   destruct (C02_indexed_read_rendered_thm x_dall ro (y_sm ro) y_F y_pairs 12 12 y_cis (map snd y_pairs) ms st H1 H2 H3 H4)
     as (out & Ha & Hb & Hc).
-  exists ms, st, out. auto.
+  exists out. split; [exact H4|]. split; [exact Ha|]. split; [exact Hb|exact Hc].
 Qed.
